@@ -14,7 +14,7 @@
 (***************************************************************************)
 EXTENDS Parser, TLC, Json, SequencesExt
 
-CONSTANTS MaxCfg, MaxParse, Family, Emit
+CONSTANTS MaxCfg, MaxParse, Family, Emit, Reconfigure
 
 VARIABLES ps, hist, ncfg, nparse
 vars == <<ps, hist, ncfg, nparse>>
@@ -52,15 +52,16 @@ CfgOps ==
                            \cup {Op4("extvalid", k, kind, 0) : k \in {"ca", "cb"}, kind \in {"accept", "reject", "magic"}}
                            \cup {Op4("check", k, "v1", 0) : k \in {"ca", "cb"}}
                            \cup {Op4("footer", "", "f1", 0)}
-    [] Family = "c11" -> {Op4("check", "exp", "v1", 0), Op4("check", "iss", "v1", 0)}
+    [] Family = "c11" -> {Op4("check", "exp", "v1", 0), Op4("check", "nbf", "v1", 0), Op4("check", "iss", "v1", 0)}
 
 ParseOps ==
   {Op4("parse", key, "", t) : key \in (IF Family = "c11" THEN {"k1"} ELSE {"k1", "k2"}), t \in 1..Len(TokTable)}
 
 Init == ps = PInit(Layer, Pr) /\ hist = <<>> /\ ncfg = 0 /\ nparse = 0
 
+\* configuration calls may also come after parses (a parser object is reconfigured and used again)
 Cfg(o) ==
-  /\ nparse = 0 /\ ncfg < MaxCfg
+  /\ ncfg < MaxCfg /\ (Reconfigure \/ nparse = 0)
   /\ ps' = PApply(ps, POp(o.op, o.k, o.v))
   /\ hist' = Append(hist, o)
   /\ ncfg' = ncfg + 1 /\ UNCHANGED nparse
